@@ -6,7 +6,7 @@
  * result line per case; each case runs in a forked child so that an abort is
  * attributed to its case ("ABORT:<why>" ends the line).
  *
- * Link with -Wl,--wrap=write,--wrap=writev,--wrap=sendmsg,--wrap=sendmmsg
+ * Link with -Wl,--wrap=write,--wrap=writev,--wrap=sendmsg,--wrap=sendmmsg,--wrap=socket
  * env: C02_SCRATCH = directory for socket files / watched files / stderr capture.
  *
  * case   := ops ';' binding ('|' binding)*
@@ -189,6 +189,12 @@ ssize_t __real_write(int, const void*, size_t);
 ssize_t __real_writev(int, const struct iovec*, int);
 ssize_t __real_sendmsg(int, const struct msghdr*, int);
 int __real_sendmmsg(int, struct mmsghdr*, unsigned, int);
+int __real_socket(int, int, int);
+static int fail_socket;   /* the next socket() calls fail with EMFILE */
+int __wrap_socket(int d, int t, int p) {
+  if (fail_socket > 0) { fail_socket--; errno = EMFILE; return -1; }
+  return __real_socket(d, t, p);
+}
 
 static void wrote(int fd, ssize_t r, int err) {
   struct H* h;
@@ -662,6 +668,39 @@ static void op_connect(int i, int srv, int rid) {
   note_fd(h);
 }
 
+/* uv_pipe_connect that fails before a socket exists: empty name (EINVAL from uv_pipe_connect2) or
+ * socket() failing with EMFILE; the error is deferred: the watcher (fd -1) is fed to the pending queue */
+static void op_connect_bad(int i, int rid, int mode) {
+  struct H* h; struct R* r;
+  if (!live(i)) return;
+  h = &HT[i];
+  if (h->kind != 'P' || h->fd >= 0) return;
+  if (((uv_stream_t*) h->uv)->connect_req != NULL) return;
+  r = new_req(rid, i, 'c', sizeof(uv_connect_t)); if (!r) return;
+  if (mode == 1) fail_socket = 1;
+  uv_pipe_connect((uv_connect_t*) r->uv, (uv_pipe_t*) h->uv, mode == 1 ? "no-such-listener" : "", connect_cb);
+  fail_socket = 0;
+  tok("S%d,%d,0", i, rid);
+  note_fd(h);
+}
+
+/* uv_tcp_connect with a delayed error: the handle is first bound to the (in use) port of listener srv */
+static void op_connect_delayed(int i, int srv, int rid) {
+  struct H* h; struct R* r; struct sockaddr_in a; int rc;
+  if (!live(i)) return;
+  h = &HT[i];
+  if (h->kind != 'T' || h->fd >= 0) return;
+  if (srv < 0 || srv >= nh || HT[srv].kind != 'T' || !HT[srv].port) return;
+  uv_ip4_addr("127.0.0.1", HT[srv].port, &a);
+  rc = uv_tcp_bind((uv_tcp_t*) h->uv, (struct sockaddr*) &a, 0);   /* EADDRINUSE is remembered, not returned */
+  if (rc) { tok(".bind%d", rc); return; }
+  note_fd(h);
+  r = new_req(rid, i, 'c', sizeof(uv_connect_t)); if (!r) return;
+  rc = uv_tcp_connect((uv_connect_t*) r->uv, (uv_tcp_t*) h->uv, (struct sockaddr*) &a, connect_cb);
+  if (rc) { tok(".connect%d", rc); drop_req(r); return; }
+  tok("S%d,%d,0", i, rid);
+}
+
 static void op_accept(int srv, int i) {
   struct H *s, *h; int rc;
   if (!live(srv) || !live(i)) return;
@@ -781,6 +820,8 @@ static void do_ops(const char* ops, int in_cb) {
     case 'l': op_listen(a); break;
     case 'k': op_connect(a, b, c); break;
     case 'j': op_connect(a, -1, b); break;
+    case 'm': op_connect_bad(a, b, c > 0); break;
+    case 'K': op_connect_delayed(a, b, c); break;
     case 'a': op_accept(a, b); break;
     case 'O': op_pair(a, b); break;
     case 'L': op_bind_long(a, b, c > 0, d4 > 0); break;
